@@ -1,5 +1,6 @@
 import SmtpV.Model.Client
 import Driver.Conv
+import SmtpV.Spec.ClientMon
 /-!
 Line-protocol glue for the `cconv` probe (real `smtp.Client` against a scripted peer).
 -/
@@ -87,5 +88,25 @@ def probe (f : List String) : String :=
       | some call => let (c', r) := acc.1.call call; (c', acc.2 ++ [showRes r])) (c0, [])
     String.intercalate "|" outs
   | _ => "DRIVER-BAD-CASE"
+
+
+/-- `mon PID cconv MODE PEER CALLS ## answer` -/
+def monitor (pid : String) (c a : List String) : String :=
+  match c, a with
+  | _ :: mode :: peerS :: callsS :: _, ans :: _ =>
+    let script : List (Option Bytes) :=
+      if peerS == "-" || peerS == "" then [] else (peerS.splitOn ",").map fun r => if r == "EOF" then none else some (bytesOfHex r)
+    let peer : Peer := ({ script := script } : Peer).release
+    let calls := (callsS.splitOn ";").map parseCall
+    let items := ans.splitOn "|"
+    if calls.length != items.length then "bad: unparsable observation (call count)" else
+    let obs : List Spec.ClientMon.Obs := (calls.zip items).filterMap fun (call?, it) =>
+      match call?, it.splitOn "/" with
+      | some call, w :: r :: rest => some { call := call, written := if w == "-" then [] else bytesOfHex w, res := r,
+                                            extra := rest.headD "" }
+      | _, _ => none
+    let bad := Spec.ClientMon.check pid (mode == "lmtp") peer obs
+    if bad.isEmpty then "ok" else "bad: " ++ String.intercalate "; " bad.eraseDups
+  | _, _ => "bad: unparsable observation"
 
 end SmtpV.Driver.ClientGlue
